@@ -102,3 +102,197 @@ Section Refine.
     Qed.
   End Piece.
 End Refine.
+
+Lemma pow10_neg_small (n : positive) : 0 < powerRZ 10 (Zneg n) < 1.
+Proof.
+  unfold powerRZ. assert (H : 1 < 10 ^ Pos.to_nat n) by (apply Rlt_pow_R1; [lra | apply Pos2Nat.is_pos]).
+  split; [apply Rinv_0_lt_compat; lra|].
+  rewrite <- Rinv_1. apply Rinv_lt_contravar; [lra | exact H].
+Qed.
+
+(** ** arcs: the model's arc computation (acos-based angle in the frame with the second axis up) equals the
+    specification's (atan2-based angle, second axis = depth), for the generic centre construction
+    (top dip at least 1e-8 away from the vertical, where the implementation switches to a special case). *)
+Section RefineArc.
+  Variable sp : special.
+  Local Existing Instance Rnum.
+  Let N := Rnum sp.
+
+  Variables sr bx by_ L t1 t2 phi d : R.
+  Hypothesis HL : 0 < L.
+  Hypothesis Ht1 : 0 < t1 < PI.
+  Hypothesis Ht2 : 0 < t2 < PI.
+  Hypothesis Hne : t1 <> t2.
+  Hypothesis Hgen : 1 * powerRZ 10 (-8) <= Rabs (t1 - PI / 2).
+  Hypothesis Hphi : (t1 <= phi <= t2) \/ (t2 <= phi <= t1).
+
+  Let sg : R := if Rlt_dec t1 t2 then 1 else -1.
+  Let Rr : R := L / Rabs (t2 - t1).
+  Let rho : R := Rr - sg * d.
+  Hypothesis Hrho : powerRZ 2 (-52) <= rho.
+
+  (** the check point: foot at the arc point of dip phi, offset d along the downward normal; frame with y up,
+      centre of the circle at begin + sg * Rr * (- sin t1, - cos t1) *)
+  Let cx : R := bx - sg * Rr * sin t1.
+  Let cy : R := by_ - sg * Rr * cos t1.
+  Let cp : R * R := (cx + sg * rho * sin phi, cy + sg * rho * cos phi).
+
+  Lemma sg_sq' : sg * sg = 1.
+  Proof. unfold sg. destruct (Rlt_dec t1 t2); ring. Qed.
+  Lemma Rr_pos' : 0 < Rr.
+  Proof. unfold Rr. apply Rdiv_lt_0_compat; [exact HL | apply Rabs_pos_lt; lra]. Qed.
+  Lemma rho_pos : 0 < rho.
+  Proof. assert (0 < powerRZ 2 (-52)) by (apply powerRZ_lt; lra). lra. Qed.
+  Lemma cos_t1_ne : cos t1 <> 0.
+  Proof.
+    intros C. destruct Ht1 as [A B].
+    assert (E : t1 = PI / 2).
+    { destruct (Rtotal_order t1 (PI / 2)) as [Hl|[He|Hg]]; [|exact He|].
+      - assert (0 < cos t1) by (apply cos_gt_0; lra). lra.
+      - assert (cos t1 < 0) by (apply cos_lt_0; lra). lra. }
+    rewrite E in Hgen. replace (PI / 2 - PI / 2) with 0 in Hgen by ring. rewrite Rabs_R0 in Hgen.
+    assert (0 < powerRZ 10 (-8)) by (apply powerRZ_lt; lra). lra.
+  Qed.
+
+  Lemma half_pi' : @fmul R N (@fhalf R N) (@fpi R N) = PI / 2.
+  Proof. apply (half_pi sp). Qed.
+
+  Theorem arc_piece_value :
+    @arc_piece R N sr (bx, by_) L t1 t2 (t1 - t2) cp =
+    ((cx + sg * Rr * sin t2, cy + sg * Rr * cos t2),
+     Some (d, Rr * Rabs (phi - t1), sr - (sin (phi + t1) * (bx - cx) + cos (phi + t1) * (by_ - cy) + cy))).
+  Proof.
+    pose proof sg_sq' as SS. pose proof Rr_pos' as RP. pose proof rho_pos as RhoP. pose proof cos_t1_ne as CN.
+    unfold arc_piece. rewrite !half_pi'.
+    change (@fabs R N) with Rabs. change (@fdiv R N) with Rdiv. change (@fcos R N) with cos. change (@fsin R N) with sin.
+    change (@ftan R N) with tan. change (@facos R N) with acos.
+    change (@fsub R N) with Rminus. change (@fadd R N) with Rplus. change (@fmul R N) with Rmult. change (@fopp R N) with Ropp.
+    change (@flt R N) with Rltb. change (@fle R N) with Rleb. change (@f0 R N) with 0. change (@f1 R N) with 1.
+    change (@fpi R N) with PI. change (@feps R N) with (powerRZ 2 (-52)).
+    unfold e8, e14, twopi, f2. change (@fmul R N) with Rmult. change (@fofZ R N 2) with 2. change (@fpi R N) with PI.
+    change (@fdec R N 1 (-8)) with (1 * powerRZ 10 (-8)). change (@fdec R N 1 (-14)) with (1 * powerRZ 10 (-14)).
+    change (@fdec R N 1 (-12)) with (1 * powerRZ 10 (-12)). change (@fdec R N 15 (-1)) with (15 * powerRZ 10 (-1)).
+    (* the radius *)
+    assert (ER : Rabs (L / (t1 - t2)) = Rr).
+    { unfold Rr, Rdiv. rewrite Rabs_mult, (Rabs_right L) by lra. rewrite Rabs_inv.
+      replace (Rabs (t1 - t2)) with (Rabs (t2 - t1)) by (rewrite <- Rabs_Ropp; f_equal; ring). reflexivity. }
+    rewrite ER.
+    (* generic centre *)
+    destruct (Rltb_spec (Rabs (t1 - PI / 2)) (1 * powerRZ 10 (-8))) as [Hc|_]; [lra|].
+    assert (H15 : 15 * powerRZ 10 (-1) * PI = 3 * (PI / 2)) by (change (powerRZ 10 (-1)) with (/ (10 * 1)); field).
+    rewrite H15.
+    destruct (Rltb_spec (Rabs (t1 - 3 * (PI / 2))) (1 * powerRZ 10 (-8))) as [Hc|_].
+    { exfalso. pose proof (pow10_neg_small 8) as P8.
+      assert (P3 : 3 < PI) by (pose proof PI2_3_2 as Q; unfold PI2 in Q; lra).
+      rewrite Rabs_left in Hc by lra. lra. }
+    cbn [fst snd].
+    (* sign bookkeeping: diff = t1 - t2 *)
+    assert (CX : bx + tan t1 * ((if Rltb (t1 - t2) 0 then by_ - Rr * cos t1 else by_ + Rr * cos t1) - by_) = cx /\
+                 (if Rltb (t1 - t2) 0 then by_ - Rr * cos t1 else by_ + Rr * cos t1) = cy).
+    { unfold cx, cy, sg, tan. destruct (Rltb_spec (t1 - t2) 0); destruct (Rlt_dec t1 t2); try lra; split; try ring; field; exact CN. }
+    destruct CX as [CX CY]. rewrite CX, CY.
+    unfold p2sub, p2norm, p2nsq. cbn [fst snd].
+    change (@fsub R N) with Rminus. change (@fadd R N) with Rplus. change (@fmul R N) with Rmult. change (@fsqrt R N) with sqrt.
+    unfold cp. cbn [fst snd].
+    assert (W0 : cx + sg * rho * sin phi - cx = sg * rho * sin phi) by ring.
+    assert (W1 : cy + sg * rho * cos phi - cy = sg * rho * cos phi) by ring.
+    rewrite W0, W1.
+    assert (NN : sqrt (sg * rho * sin phi * (sg * rho * sin phi) + sg * rho * cos phi * (sg * rho * cos phi)) = rho).
+    { replace (sg * rho * sin phi * (sg * rho * sin phi) + sg * rho * cos phi * (sg * rho * cos phi))
+        with ((sg * sg) * (rho * rho) * (sin phi * sin phi + cos phi * cos phi)) by ring.
+      rewrite SS, (sc3 phi). replace (1 * (rho * rho) * 1) with (rho * rho) by ring. apply sqrt_square. lra. }
+    rewrite NN.
+    assert (EX : cos (t1 - t2) * (bx - cx) - sin (t1 - t2) * (by_ - cy) + cx = cx + sg * Rr * sin t2).
+    { replace (bx - cx) with (sg * Rr * sin t1) by (unfold cx; ring). replace (by_ - cy) with (sg * Rr * cos t1) by (unfold cy; ring).
+      replace t2 with (t1 - (t1 - t2)) at 3 by ring. rewrite (sin_minus t1 (t1 - t2)). ring. }
+    assert (EY : sin (t1 - t2) * (bx - cx) + cos (t1 - t2) * (by_ - cy) + cy = cy + sg * Rr * cos t2).
+    { replace (bx - cx) with (sg * Rr * sin t1) by (unfold cx; ring). replace (by_ - cy) with (sg * Rr * cos t1) by (unfold cy; ring).
+      replace t2 with (t1 - (t1 - t2)) at 3 by ring. rewrite (cos_minus t1 (t1 - t2)). ring. }
+    rewrite EX, EY.
+    destruct (Rltb_spec (Rabs rho) (powerRZ 2 (-52))) as [Hs|_]; [rewrite Rabs_right in Hs by lra; lra|].
+    assert (ARG : (0 + sg * rho * sin phi * 0 + sg * rho * cos phi * Rr) / (rho * Rr) = sg * cos phi) by (field; lra).
+    rewrite ARG.
+    assert (Hp : 0 < phi < PI) by (destruct Hphi; lra).
+    assert (SinP : 0 < sin phi) by (apply sin_gt_0; lra).
+    (* the two orientations *)
+    unfold sg in *. destruct (Rlt_dec t1 t2) as [Hlt|Hge].
+    - (* dip increasing: sg = 1, diff < 0 *)
+      assert (Hphi' : t1 <= phi <= t2) by (destruct Hphi; lra).
+      destruct (Rleb_spec (cx + 1 * rho * sin phi) cx) as [Hx|Hx]; [nra|].
+      replace (1 * cos phi) with (cos phi) by ring. rewrite acos_cos by lra.
+      destruct (Rleb_spec 0 (t1 - t2)) as [Hz|_]; [lra|].
+      replace (2 * PI - (2 * PI - phi)) with phi by ring.
+      destruct (Rltb_spec (Rabs (phi - 2 * PI)) (1 * powerRZ 10 (-14))) as [Hq|_].
+      { exfalso. pose proof (pow10_neg_small 14) as [_ P14].
+        assert (P3 : 3 < PI) by (pose proof PI2_3_2 as Q; unfold PI2 in Q; lra).
+        rewrite Rabs_left in Hq by lra. lra. }
+      destruct (Rltb_spec 0 (t1 - t2)) as [Hz|_]; [lra|]. cbn [andb orb].
+      destruct (Rltb_spec (t1 - t2) 0) as [_|Hz]; [|lra].
+      destruct (Rleb_spec t1 phi) as [_|Hz]; [|lra]. destruct (Rleb_spec phi t2) as [_|Hz]; [|lra]. cbn [andb orb].
+      assert (E1 : (Rr - rho) * 1 = d) by (unfold rho; ring).
+      assert (E2 : (Rr * phi - Rr * t1) * 1 = Rr * Rabs (phi - t1)) by (rewrite Rabs_right by lra; ring).
+      rewrite E1, E2. reflexivity.
+    - (* dip decreasing: sg = -1, diff > 0 *)
+      assert (Hgt : t2 < t1) by lra. assert (Hphi' : t2 <= phi <= t1) by (destruct Hphi; lra).
+      destruct (Rleb_spec (cx + -1 * rho * sin phi) cx) as [_|Hx]; [|nra].
+      replace (-1 * cos phi) with (cos (PI - phi)) by (rewrite cos_minus, cos_PI, sin_PI; ring).
+      rewrite acos_cos by lra.
+      destruct (Rleb_spec 0 (t1 - t2)) as [_|Hz]; [|lra].
+      replace (PI - (PI - phi)) with phi by ring.
+      destruct (Rltb_spec (Rabs (phi - 2 * PI)) (1 * powerRZ 10 (-14))) as [Hq|_].
+      { exfalso. pose proof (pow10_neg_small 14) as [_ P14].
+        assert (P3 : 3 < PI) by (pose proof PI2_3_2 as Q; unfold PI2 in Q; lra).
+        rewrite Rabs_left in Hq by lra. lra. }
+      destruct (Rltb_spec 0 (t1 - t2)) as [_|Hz]; [|lra].
+      destruct (Rleb_spec phi t1) as [_|Hz]; [|lra]. destruct (Rleb_spec t2 phi) as [_|Hz]; [|lra]. cbn [andb orb].
+      destruct (Rltb_spec (t1 - t2) 0) as [Hz|_]; [lra|].
+      assert (E1 : (Rr - rho) * - (1) = d) by (unfold rho; ring).
+      assert (E2 : (Rr * phi - Rr * t1) * - (1) = Rr * Rabs (phi - t1)) by (rewrite Rabs_left1 by lra; ring).
+      rewrite E1, E2. reflexivity.
+  Qed.
+
+  Lemma sg_is_arc_sgn : @arc_sgn R N {| pc_len := L; pc_top := t1; pc_bot := t2 |} = sg.
+  Proof.
+    unfold arc_sgn, sg. cbn [pc_top pc_bot]. change (@flt R N) with Rltb. change (@f1 R N) with 1. change (@fopp R N) with Ropp.
+    destruct (Rltb_spec t1 t2); destruct (Rlt_dec t1 t2); try lra; reflexivity.
+  Qed.
+
+  Let p : @piece R := {| pc_len := L; pc_top := t1; pc_bot := t2 |}.
+
+  (** the specification's arc point of dip [th], in the local frame *)
+  Lemma arc_point_frame th :
+    @arc_px R N bx p th = cx + sg * Rr * sin th /\ sr - @arc_py R N (sr - by_) p th = cy + sg * Rr * cos th.
+  Proof.
+    pose proof sg_is_arc_sgn as SG. fold p in SG.
+    unfold arc_px, arc_py, arc_cx, arc_cy, nrm_x, nrm_y. rewrite SG.
+    change (@arc_radius R N p) with Rr. cbn [pc_top p].
+    change (@fsub R N) with Rminus. change (@fadd R N) with Rplus. change (@fmul R N) with Rmult. change (@fopp R N) with Ropp.
+    change (@fsin R N) with sin. change (@fcos R N) with cos. unfold cx, cy. split; ring.
+  Qed.
+
+  Theorem arc_piece_refines_spec : special_laws sp ->
+    let e := @arc_eval R N bx (sr - by_) p (fst cp) (sr - snd cp) in
+    fst (@arc_piece R N sr (bx, by_) L t1 t2 (t1 - t2) cp) = (pe_ex e, sr - pe_ey e) /\
+    match snd (@arc_piece R N sr (bx, by_) L t1 t2 (t1 - t2) cp) with
+    | Some (dist, along, _) => pe_ok e = true /\ dist = pe_dist e /\ along = pe_along e
+    | None => False
+    end.
+  Proof.
+    intros Law e. rewrite arc_piece_value. cbn [fst snd].
+    pose proof sg_is_arc_sgn as SG. fold p in SG.
+    destruct (arc_point_frame phi) as [Px Py]. destruct (arc_point_frame t2) as [Ex Ey].
+    assert (U : fst cp = @arc_px R N bx p phi + d * - sin phi).
+    { rewrite Px. unfold cp, rho. cbn [fst].
+      transitivity (cx + sg * Rr * sin phi - (sg * sg) * d * sin phi); [ring | rewrite sg_sq'; ring]. }
+    assert (V : sr - snd cp = @arc_py R N (sr - by_) p phi + d * cos phi).
+    { assert (Py' : @arc_py R N (sr - by_) p phi = sr - (cy + sg * Rr * cos phi)) by lra. rewrite Py'. unfold cp, rho. cbn [snd].
+      transitivity (sr - (cy + sg * Rr * cos phi) + (sg * sg) * d * cos phi); [ring | rewrite sg_sq'; ring]. }
+    assert (Hd' : 0 < @arc_radius R N p - @arc_sgn R N p * d) by (rewrite SG; exact rho_pos).
+    pose proof (arc_coordinates sp bx (sr - by_) L t1 t2 HL Ht1 Ht2 Hne phi d Hphi Hd' Law) as [Hdist [Hal Hok]].
+    pose proof (arc_end sp bx (sr - by_) L t1 t2 Hne (fst cp) (sr - snd cp)) as [Hex [Hey _]].
+    fold p in Hdist, Hal, Hok, Hex, Hey. fold N in Hdist, Hal, Hok, Hex, Hey.
+    rewrite <- U, <- V in Hdist, Hal, Hok. fold e in Hdist, Hal, Hok, Hex, Hey.
+    rewrite Hex, Hey, Hdist, Hal, Hok, Ex, Ey.
+    split; [reflexivity|]. split; [reflexivity|]. split; reflexivity.
+  Qed.
+End RefineArc.
